@@ -177,8 +177,14 @@ pub fn bounds() {
         w.cfg.device_active = false;
     });
     oplog(|| format!("config bounds over {tk:?}, {clen} bytes of configuration, capability present: {has_config}"));
-    let (window, must) = if pci {
-        // the standard function advertises a window of whole words (at least one)
+    let exact = pci && clen >= 4 && flip(1, 2);
+    with(|w| w.bus.pci.get_or_insert_with(Default::default).exact_cfg_len = exact);
+    let (window, must) = if exact {
+        // the capability advertises exactly the configuration length; the transport may only
+        // rely on the whole words inside it
+        (clen, clen / 4 * 4)
+    } else if pci {
+        // the function advertises a window of whole words (at least one)
         let w4 = ((clen + 3) & !3).max(4);
         (w4, w4)
     } else {
